@@ -162,7 +162,7 @@ def find_paths(directory, pattern, ignore=None, sort=True):
 
     files = []
     for incl in as_tuple(pattern):
-        files += [f for f in directory.rglob(incl) if f not in excludes]
+        files += [f for f in directory.rglob(incl) if f not in excludes and f not in files]
 
     return sorted(files) if sort else files
 
